@@ -61,7 +61,8 @@ type TMapL struct {
 	Values map[string][]string
 }
 
-var typedTS = func() *schema.TypeSystem {
+// newTypedTS compiles the typed roots' schema; every simulated world gets its own.
+func newTypedTS() *schema.TypeSystem {
 	ts, err := ipld.LoadSchemaBytes([]byte(`
 type TMap {String:Int}
 type TInner struct { X Int  Y String }
@@ -72,7 +73,7 @@ type TRoot struct { M TMap  L [String]  S TInner  ML TMapL }`))
 		panic(err)
 	}
 	return ts
-}()
+}
 
 type S struct{}
 
@@ -113,6 +114,7 @@ type world struct {
 	o          *sim.Outcome
 	st         *sim.Stats
 	lsys       linking.LinkSystem
+	tts        *schema.TypeSystem // this world's own compiled schema of the typed roots
 	seam       *simstore.Seam
 	raw        func(l datamodel.Link) ([]byte, bool)
 	cfg        *traversal.Config
@@ -582,7 +584,7 @@ func (S) RunTape(t *sim.Tape, st *sim.Stats, keepLog bool) *sim.Outcome {
 	s.Log.Keep = keepLog
 	s.MaxSteps = 400000
 	s.MaxQ = []int{0, 3, 12}[t.Choice(3, "cfg.maxq")]
-	w := &world{t: t, s: s, o: o, st: st, faultTasks: map[int]bool{}, skipTasks: map[int]map[string]bool{}}
+	w := &world{t: t, s: s, o: o, st: st, faultTasks: map[int]bool{}, skipTasks: map[int]map[string]bool{}, tts: newTypedTS()}
 	w.lsys = cidlink.DefaultLinkSystem()
 	if t.Bool("cfg.cidmem") {
 		cm := &cidlink.Memory{}
@@ -714,7 +716,7 @@ func (S) RunTape(t *sim.Tape, st *sim.Stats, keepLog bool) *sim.Outcome {
 				r.ML.Keys = append(r.ML.Keys, k)
 				r.ML.Values[k] = []string{"first-of-" + k, "second-of-" + k}[:1+t.Choice(2, "tr.mllen")]
 			}
-			root := bindnode.Wrap(r, typedTS.TypeByName("TRoot"))
+			root := bindnode.Wrap(r, w.tts.TypeByName("TRoot"))
 			e, err := w.expand(root, 0)
 			if err != nil {
 				panic("harness: typed root unreadable: " + err.Error())
@@ -1200,7 +1202,7 @@ func (S) RunTape(t *sim.Tape, st *sim.Stats, keepLog bool) *sim.Outcome {
 							if act.repl.K == model.Map && len(act.repl.Keys) == 2 && act.repl.Keys[0] == "X" && act.repl.Keys[1] == "Y" {
 								// the replacement comes from another node implementation (a reflection-bound struct)
 								st.Inc("probe.replacement_from_other_implementation")
-								return bindnode.Wrap(&TInner{X: act.repl.Vals[0].I, Y: act.repl.Vals[1].S}, typedTS.TypeByName("TInner")), nil
+								return bindnode.Wrap(&TInner{X: act.repl.Vals[0].I, Y: act.repl.Vals[1].S}, w.tts.TypeByName("TInner")), nil
 							}
 							nb := basicnode.Prototype.Any.NewBuilder()
 							model.Assemble(nb, act.repl, gen.LinkFromBin, nil)
